@@ -411,6 +411,7 @@ func RunC1(rc *RunCtx, sc *C1) *C1Outcome {
 	}
 	if sc.ZeroNilReads && sc.Kind != KSerial {
 		cl.ZeroNilPoll = 20 * time.Microsecond
+		rc.Probe("zero_nil_polling_connection")
 	}
 	if sc.WrappedTimeouts {
 		// real transports do not hand out the bare sentinel: sockets wrap it in *net.OpError, files in *fs.PathError, and
